@@ -36,12 +36,12 @@ Ltac bools :=
 (* ---- os.replace is the only write to the data file ------------------------------------------ *)
 Lemma only_replace_writes_file_l c s o :
   file (step c s o) <> file s ->
-  crashed s = false /\ pc s = PReplace /\ o = Tick /\ file (step c s o) = temp s.
+  crashed s = false /\ pc s = PReplace /\ (o = Tick \/ o = CopyFail) /\ file (step c s o) = temp s.
 Proof.
   destruct s as [p f d di b st l fi t cr]. unfold step. cbn.
   destruct cr; cbn; [congruence|].
   destruct o; cbn; try congruence;
-    destruct p; cbn; unfold after_wait, set_pc; cbn; bools; try congruence; auto.
+    destruct p; cbn; unfold after_wait, set_pc, copy_fail; cbn; bools; try congruence; auto 6.
 Qed.
 
 (* ---- never torn ------------------------------------------------------------------------------ *)
@@ -56,7 +56,8 @@ Definition inv1 (H : list Z) (ifile : bool) (s : state) : Prop :=
   (dirty s = true -> In (data s) H) /\
   match pc s with
   | PSpin | PClear => dirty s = true
-  | PCopy | POpen | PW1 | PW2 => In (local s) H
+  | PCopy => In (local s) H /\ In (data s) H
+  | POpen | PW1 | PW2 => In (local s) H
   | PReplace => In (local s) H /\ temp s = Some (local s, TFull)
   | _ => True
   end.
@@ -69,7 +70,16 @@ Qed.
 Lemma inv1_mono H H' i s : incl H H' -> inv1 H i s -> inv1 H' i s.
 Proof.
   intros I (A & B & C). split; [eapply okfile_mono; eauto|]. split; [auto|].
-  destruct (pc s); auto. destruct C; split; auto.
+  destruct (pc s); auto; destruct C; split; auto.
+Qed.
+
+Lemma inv1_tick c H i s : inv1 H i s -> inv1 H i (tick c s).
+Proof.
+  intros (A & B & C).
+  destruct s as [p f d di b st l fi t cr]. cbn in *.
+  destruct p; cbn in *; unfold after_wait, set_pc; cbn;
+    bools; repeat split; cbn; auto; try tauto; try discriminate.
+  all: try (destruct C as [C1 C2]; rewrite C2; cbn; auto).
 Qed.
 
 Lemma inv1_step c H i s o : inv1 H i s -> inv1 (H ++ saved [o]) i (step c s o).
@@ -80,23 +90,21 @@ Proof.
   destruct o; cbn [saved] in *.
   - (* Save *) destruct M as (A & B & C). split; [exact A|]. split.
     + intros _. cbn. apply in_or_app. right. left. reflexivity.
-    + cbn. destruct (pc s); auto.
+    + cbn. destruct (pc s); auto. destruct C. split; auto. apply in_or_app. right. left. reflexivity.
   - exact M.
   - exact M.
   - (* IoError *)
     destruct (io_point (pc s)) eqn:IO.
     + destruct M as (A & B & C). unfold raise_in_save. split; [exact A|]. split; [exact B|].
       cbn. destruct (final s); exact Logic.I.
-    + clear I. destruct M as (A & B & C).
-      destruct s as [p f d di b st l fi t cr]. cbn in *.
-      destruct p; cbn in *; try discriminate; unfold after_wait, set_pc; cbn;
-        bools; repeat split; cbn; auto; try tauto.
-  - (* Tick *)
-    clear I. destruct M as (A & B & C).
+    + apply inv1_tick, M.
+  - (* Tick *) apply inv1_tick, M.
+  - (* CopyFail *)
+    destruct (copy_point (pc s)) eqn:CP; [|apply inv1_tick, M].
+    destruct M as (A & B & C).
     destruct s as [p f d di b st l fi t cr]. cbn in *.
-    destruct p; cbn in *; unfold after_wait, set_pc; cbn;
-      bools; repeat split; cbn; auto; try tauto; try discriminate.
-    all: try (destruct C as [C1 C2]; rewrite C2; cbn; auto).
+    destruct p; try discriminate. unfold copy_fail, set_pc; cbn.
+    bools; repeat split; cbn; auto; tauto.
 Qed.
 
 Lemma saved_app a b : saved (a ++ b) = saved a ++ saved b.
@@ -148,11 +156,11 @@ Definition ghost (acc : option Z) (s : state) : Prop :=
   match acc with None => True | Some v => data s = v /\ pend s end.
 
 Definition clean1 (stopped : bool) (o : op) : bool :=
-  match o with Save _ => negb stopped | Shutdown | Tick => true | _ => false end.
+  match o with Save _ => negb stopped | Shutdown | Tick => true | IoError | Crash | CopyFail => false end.
 
-Lemma clean_step fb s o acc :
+Lemma clean_step fb fc s o acc :
   inv2 s -> ghost acc s -> clean1 (stopper s) o = true ->
-  inv2 (step (true, fb) s o) /\ ghost (upd_last acc o) (step (true, fb) s o).
+  inv2 (step (true, fb, fc) s o) /\ ghost (upd_last acc o) (step (true, fb, fc) s o).
 Proof.
   intros (CR & FS & K) G CL. unfold step. rewrite CR.
   destruct s as [p f d di b st l fi t cr]. cbn in *. subst cr.
@@ -199,13 +207,13 @@ Proof.
   destruct p; cbn; unfold after_wait, set_pc; cbn; bools; reflexivity.
 Qed.
 
-Lemma clean_run fb ops : forall s acc,
+Lemma clean_run fb fc ops : forall s acc,
   inv2 s -> ghost acc s -> clean_from (stopper s) ops = true ->
-  inv2 (run (true, fb) s ops) /\ ghost (fold_left upd_last ops acc) (run (true, fb) s ops).
+  inv2 (run (true, fb, fc) s ops) /\ ghost (fold_left upd_last ops acc) (run (true, fb, fc) s ops).
 Proof.
   induction ops as [|o r IH]; intros s acc I G CL; [split; assumption|].
   apply clean_from_cons in CL as [C1 C2].
-  destruct (clean_step fb s o acc I G C1) as [I' G'].
+  destruct (clean_step fb fc s o acc I G C1) as [I' G'].
   rewrite run_cons. cbn [fold_left]. apply IH; auto.
   rewrite stopper_step; auto. destruct I; auto.
 Qed.
@@ -213,14 +221,14 @@ Qed.
 Lemma inv2_init i t : inv2 (init i t).
 Proof. unfold inv2, init. cbn. repeat split; auto; discriminate. Qed.
 
-Lemma clean_shutdown_durable_l fb ifile itemp ops v :
+Lemma clean_shutdown_durable_l fb fc ifile itemp ops v :
   clean_from false ops = true ->
   last_saved ops = Some v ->
-  pc (run (true, fb) (init ifile itemp) ops) = PDone ->
-  file (run (true, fb) (init ifile itemp) ops) = Some (v, TFull).
+  pc (run (true, fb, fc) (init ifile itemp) ops) = PDone ->
+  file (run (true, fb, fc) (init ifile itemp) ops) = Some (v, TFull).
 Proof.
   intros CL LS PD.
-  destruct (clean_run fb ops (init ifile itemp) None (inv2_init _ _) Logic.I CL) as [I G].
+  destruct (clean_run fb fc ops (init ifile itemp) None (inv2_init _ _) Logic.I CL) as [I G].
   unfold last_saved in LS. rewrite LS in G. destruct G as [D P].
   destruct I as (_ & _ & K). rewrite PD in K. destruct K as [_ K].
   unfold pend in P. rewrite PD in P. destruct P as [P|P]; [congruence|].
@@ -232,13 +240,13 @@ Definition ops_flush_dead : list op :=
   [Tick; Tick; Save 1; Tick; Tick; Tick; Tick; Tick; Tick; Tick;   (* v1 written, thread in rate-limit sleep *)
    Save 2; Shutdown; Tick; Tick; Tick].
 
-Lemma clean_shutdown_durable_refuted_l fb :
+Lemma clean_shutdown_durable_refuted_l fb fc :
   exists ops v,
     clean_from false ops = true /\ last_saved ops = Some v /\
-    pc (run (false, fb) (init false 0) ops) = PDone /\
-    file (run (false, fb) (init false 0) ops) <> Some (v, TFull).
+    pc (run (false, fb, fc) (init false 0) ops) = PDone /\
+    file (run (false, fb, fc) (init false 0) ops) <> Some (v, TFull).
 Proof.
-  exists ops_flush_dead, 2. destruct fb; vm_compute; repeat split; try reflexivity; discriminate.
+  exists ops_flush_dead, 2. destruct fb, fc; vm_compute; repeat split; try reflexivity; discriminate.
 Qed.
 
 (* ---- a failed write is not sticky (code with try/finally around the write) ------------------ *)
@@ -247,7 +255,7 @@ Definition inv4 (s : state) : Prop :=
   (stopper s = false -> final s = false /\ pc s <> PFinal /\ pc s <> PDone) /\
   busy s = io_point (pc s).
 
-Lemma inv4_step ff s o : inv4 s -> inv4 (step (ff, true) s o).
+Lemma inv4_step ff s o : inv4 s -> inv4 (step (ff, true, true) s o).
 Proof.
   intros (A & B). unfold step. destruct (crashed s) eqn:CR; [split; assumption|].
   destruct s as [p f d di b st l fi t cr]. cbn in *. subst cr b.
@@ -263,9 +271,13 @@ Proof.
       (split; [intros E; cbn in E |- *; try discriminate;
                destruct (A E) as (A1 & A2 & A3); repeat split; cbn; try discriminate; try congruence
               | reflexivity]).
+  - destruct p; cbn; unfold after_wait, set_pc, raise_in_save, copy_fail; cbn; bools; cbn;
+      (split; [intros E; cbn in E |- *; try discriminate;
+               destruct (A E) as (A1 & A2 & A3); repeat split; cbn; try discriminate; try congruence
+              | reflexivity]).
 Qed.
 
-Lemma inv4_run ff ops : forall s, inv4 s -> inv4 (run (ff, true) s ops).
+Lemma inv4_run ff ops : forall s, inv4 s -> inv4 (run (ff, true, true) s ops).
 Proof.
   induction ops as [|o r IH]; intros s I; [exact I|]. rewrite run_cons. apply IH, inv4_step, I.
 Qed.
@@ -293,7 +305,7 @@ Proof. unfold ticks. apply repeat_app. Qed.
    after at most 24 thread steps and stays there *)
 Lemma save_lands ff s v k :
   inv4 s -> crashed s = false -> stopper s = false ->
-  settled v (run (ff, true) s (Save v :: ticks (24 + k))).
+  settled v (run (ff, true, true) s (Save v :: ticks (24 + k))).
 Proof.
   intros (A & B) CR ST. destruct (A ST) as (FI & P1 & P2).
   rewrite ticks_add, app_comm_cons, run_app. apply settled_ticks.
@@ -302,16 +314,16 @@ Proof.
 Qed.
 
 Lemma failed_write_not_sticky_l ff ifile itemp ops v k :
-  let s := run (ff, true) (init ifile itemp) ops in
+  let s := run (ff, true, true) (init ifile itemp) ops in
   crashed s = false -> stopper s = false ->
-  settled v (run (ff, true) s (Save v :: ticks (24 + k))).
+  settled v (run (ff, true, true) s (Save v :: ticks (24 + k))).
 Proof.
   intros s CR ST. apply save_lands; auto. apply inv4_run, inv4_init.
 Qed.
 
 (* the flag is busy only while a write is in progress *)
 Lemma busy_only_while_writing_l ff ifile itemp ops :
-  let s := run (ff, true) (init ifile itemp) ops in busy s = io_point (pc s).
+  let s := run (ff, true, true) (init ifile itemp) ops in busy s = io_point (pc s).
 Proof. intros s. apply (inv4_run ff ops _ (inv4_init ifile itemp)). Qed.
 
 (* the code as it was: one failed write and is_busy stays True for ever *)
@@ -328,18 +340,66 @@ Proof.
   rewrite E. apply IH; assumption.
 Qed.
 
-Lemma failed_write_sticky_orig_l ff :
+Lemma failed_write_sticky_orig_l ff fc :
   exists ops, forall v n,
-    file (run (ff, false) (init false 0) (ops ++ Save v :: ticks n)) = None /\
-    stopper (run (ff, false) (init false 0) (ops ++ Save v :: ticks n)) = false /\
-    crashed (run (ff, false) (init false 0) (ops ++ Save v :: ticks n)) = false.
+    file (run (ff, false, fc) (init false 0) (ops ++ Save v :: ticks n)) = None /\
+    stopper (run (ff, false, fc) (init false 0) (ops ++ Save v :: ticks n)) = false /\
+    crashed (run (ff, false, fc) (init false 0) (ops ++ Save v :: ticks n)) = false.
 Proof.
   exists ops_busy_stuck. intros v n. rewrite run_app.
-  destruct n as [|[|[|n]]]; try solve [destruct ff; vm_compute; auto].
+  destruct n as [|[|[|n]]]; try solve [destruct ff, fc; vm_compute; auto].
   change (ticks (S (S (S n)))) with (ticks 3 ++ ticks n).
   rewrite app_comm_cons, run_app.
-  rewrite spin_forever; destruct ff; vm_compute; auto.
+  rewrite spin_forever; destruct ff, fc; vm_compute; auto.
 Qed.
+
+(* ---- a failed snapshot (deepcopy raises: the live dict changed size during the copy) ---------- *)
+(* code before fixes/C15-snapshot-in-try.patch: the exception escapes _writing_thread; the thread is
+   dead, no later save of this manager is ever written *)
+Definition ops_copy_dies : list op := [Tick; Tick; Save 1; Tick; Tick; CopyFail].
+
+Lemma dead_forever c n : forall s, pc s = PDone -> run c s (ticks n) = s.
+Proof.
+  induction n as [|n IH]; intros s P; [reflexivity|].
+  cbn [ticks repeat]. rewrite run_cons.
+  assert (E : step c s Tick = s).
+  { unfold step. destruct (crashed s); [reflexivity|].
+    destruct s as [p f d di b st l fi t cr]. cbn in *. subst. reflexivity. }
+  rewrite E. apply IH, P.
+Qed.
+
+Lemma snapshot_failure_sticky_orig_l ff fb :
+  exists ops, forall v n,
+    file (run (ff, fb, false) (init false 0) (ops ++ Save v :: ticks n)) = None /\
+    stopper (run (ff, fb, false) (init false 0) (ops ++ Save v :: ticks n)) = false /\
+    crashed (run (ff, fb, false) (init false 0) (ops ++ Save v :: ticks n)) = false.
+Proof.
+  exists ops_copy_dies. intros v n. rewrite run_app, run_cons.
+  rewrite dead_forever by (destruct ff, fb; reflexivity).
+  destruct ff, fb; vm_compute; auto.
+Qed.
+
+(* fixed code: the failed snapshot is retried by the thread itself: the data that was being copied
+   is on disk after at most 24 further steps, without any new save_all *)
+Lemma snapshot_failure_retried_l ff ifile itemp ops k :
+  let s := run (ff, true, true) (init ifile itemp) ops in
+  crashed s = false -> stopper s = false -> pc s = PCopy ->
+  settled (data s) (run (ff, true, true) s (CopyFail :: ticks (24 + k))).
+Proof.
+  intros s CR ST P.
+  assert (I : inv4 s) by (apply inv4_run, inv4_init).
+  destruct I as (A & B). destruct (A ST) as (FI & P1 & P2).
+  rewrite ticks_add, app_comm_cons, run_app. apply settled_ticks.
+  destruct s as [p f d di b st l fi t cr]. cbn in *. subst.
+  vm_compute; repeat split; auto.
+Qed.
+
+Example ex_snapshot_retried :
+  let s := run (true, true, true) (init false 0) [Tick; Tick; Save 1; Tick; Tick] in
+  pc s = PCopy /\ crashed s = false /\ stopper s = false /\
+  dirty (step (true, true, true) s CopyFail) = true /\
+  file (run (true, true, true) s (CopyFail :: ticks 24)) = Some (1, TFull).
+Proof. vm_compute. auto. Qed.
 
 (* ============================================================================================ *)
 (* machine variables                                                                             *)
@@ -465,12 +525,38 @@ Proof.
   vm_compute. repeat split; auto.
 Qed.
 
+(* ---- load side: unusable file, malformed entries ------------------------------------------ *)
+Lemma bad_file_boots_empty_l t now d : 1 <= t < 10 -> reload now (tampered t d) = [].
+Proof.
+  intros [A B]. unfold tampered.
+  destruct (t =? 0) eqn:E0; [apply Z.eqb_eq in E0; lia|].
+  destruct (t <? 10) eqn:E1; [reflexivity|apply Z.ltb_ge in E1; lia].
+Qed.
+
+Lemma malformed_entry_only_drops_itself_l n now d m v :
+  In (m, v) (reload now (drop n d)) <-> m <> n /\ In (m, v) (reload now d).
+Proof.
+  rewrite !reload_spec_l. unfold drop. split.
+  - intros (e & sc & I & X). apply filter_In in I as [I N]. cbn in N.
+    split; [intros ->; rewrite Z.eqb_refl in N; discriminate|]. exists e, sc. auto.
+  - intros (N & e & sc & I & X). exists e, sc. split; [|exact X]. apply filter_In. split; [exact I|].
+    cbn. destruct (m =? n) eqn:E; [apply Z.eqb_eq in E; contradiction|reflexivity].
+Qed.
+
+Example ex_tampered :
+  let s := vrun vinit [VSet 1 0 true; VSet 2 1000003 true; VConf 3 true 10; VSet 3 7 false] in
+  reload 1700000005 (vdisk s) = [(1, Some 0); (2, Some 1000003); (3, Some 7)] /\
+  reload 1700000005 (tampered 12 (vdisk s)) = [(1, Some 0); (3, Some 7)] /\
+  reload 1700000005 (tampered 3 (vdisk s)) = [] /\
+  reload 1700000011 (tampered 11 (vdisk s)) = [(2, Some 1000003)].
+Proof. vm_compute. auto. Qed.
+
 (* ============================================================================================ *)
 (* the hypotheses of the theorems in Props.v are satisfiable on non-trivial states              *)
 
 (* a crash in the middle of the second write: v1 complete on disk, half of v2 in the temp file *)
 Example ex_never_torn :
-  let s := run (true, true) (init false 0)
+  let s := run (true, true, true) (init false 0)
                ([Tick; Tick; Save 1] ++ ticks 8 ++ [Save 2; Tick; Tick; Tick; Tick; Tick; Tick; Crash; Tick; Save 3]) in
   file s = Some (1, TFull) /\ temp s = Some (2, THalf) /\ crashed s = true.
 Proof. vm_compute. auto. Qed.
@@ -479,14 +565,14 @@ Definition ops_clean_example : list op := ops_flush_dead ++ ticks 8.
 
 Example ex_clean_shutdown :
   clean_from false ops_clean_example = true /\ last_saved ops_clean_example = Some 2 /\
-  pc (run (true, true) (init false 0) ops_clean_example) = PDone /\
-  file (run (true, true) (init false 0) ops_clean_example) = Some (2, TFull).
+  pc (run (true, true, true) (init false 0) ops_clean_example) = PDone /\
+  file (run (true, true, true) (init false 0) ops_clean_example) = Some (2, TFull).
 Proof. vm_compute. auto. Qed.
 
 Example ex_not_sticky :
-  let s := run (true, true) (init true 2) ops_busy_stuck in
+  let s := run (true, true, true) (init true 2) ops_busy_stuck in
   crashed s = false /\ stopper s = false /\ pc s = PRate /\ temp s = Some (1, TEmpty) /\
-  file (run (true, true) s (Save 7 :: ticks 24)) = Some (7, TFull).
+  file (run (true, true, true) s (Save 7 :: ticks 24)) = Some (7, TFull).
 Proof. vm_compute. auto. Qed.
 
 Example ex_persist_reload :
@@ -501,13 +587,13 @@ Proof. vm_compute. auto 10. Qed.
 (* FileManager.save called directly                                                              *)
 
 Lemma direct_good_save_lands_l ff b v d :
-  let s := direct_save (ff, true) b v d 0 in
+  let s := direct_save (ff, true, true) b v d 0 in
   file s = Some (v, TFull) /\ temp s = None /\ busy s = false.
 Proof. destruct d, ff, b; vm_compute; auto. Qed.
 
 Lemma direct_failed_save_harmless_l ff b v d t :
   t <> 0 ->
-  let s := direct_save (ff, true) b v d t in
+  let s := direct_save (ff, true, true) b v d t in
   file s = fst d /\ busy s = false /\
   (temp s = Some (v, TEmpty) \/ temp s = Some (v, THalf)).
 Proof.
@@ -519,10 +605,10 @@ Lemma frun_app c s a b : frun c s (a ++ b) = frun c (frun c s a) b.
 Proof. apply fold_left_app. Qed.
 
 Lemma fsave_later_good_save_lands_l ff ops i v :
-  let s := frun (ff, true) finit (ops ++ [FGood i v]) in
+  let s := frun (ff, true, true) finit (ops ++ [FGood i v]) in
   fbusy s = false /\ fst (if i =? 0 then fd0 s else fd1 s) = Some (v, TFull).
 Proof.
-  cbn zeta. rewrite frun_app. generalize (frun (ff, true) finit ops). intros s.
+  cbn zeta. rewrite frun_app. generalize (frun (ff, true, true) finit ops). intros s.
   cbn [frun fold_left fstep fst].
   destruct (direct_good_save_lands_l ff (fbusy s) v (if i =? 0 then fd0 s else fd1 s)) as (A & B & C).
   cbn zeta in A, B, C. change (0 =? 0) with true. cbn [b2z].
@@ -530,6 +616,6 @@ Proof.
 Qed.
 
 Example ex_fsave :
-  let s := frun (true, true) finit [FGood 0 1; FFail 0 2 1 2; FFail 1 3 2 1; FGood 1 4] in
+  let s := frun (true, true, true) finit [FGood 0 1; FFail 0 2 1 2; FFail 1 3 2 1; FGood 1 4] in
   fd0 s = (Some (1, TFull), Some (2, THalf)) /\ fd1 s = (Some (4, TFull), None) /\ fbusy s = false.
 Proof. vm_compute. auto. Qed.
